@@ -37,6 +37,7 @@ GRID_CFG = {
     "thorough": [("GridIndexBlockTwo.cfg", None), ("GridIndexBlockFull.cfg", 30000), ("GridIndexGrid2DFull.cfg", 30000),
                  ("GridIndexOctreeFull.cfg", None)],
 }
+FILE_SAMPLE = {"quick": 100, "thorough": 1500}      # cases per GridIndex cfg replayed once more through a file
 REFINE_CFG = {"quick": "OctreeRefineQuick.cfg", "thorough": "OctreeRefineFull.cfg"}
 CURVE_CFG = {"quick": "CurvePartsQuick.cfg", "thorough": "CurvePartsFull.cfg"}
 CACHE_KINDS = ["Grid2D", "Block", "Octree", "Drape"]
@@ -204,6 +205,45 @@ def _replay_grid(case):
     return viol
 
 
+def _replay_grid_file(case):
+    """Same case through a file: create, close, reopen read-only, read the centres of the stored object (delimiters,
+    octree records and attributes then come back through fetch_array_attribute / the attribute map)."""
+    import uuid as _uuid
+    from geoh5py import Workspace
+    from ..pool import scratch
+    viol = []
+    kind = case["inp"]["kind"]
+
+    def bad(sig, msg):
+        viol.append({"signature": sig, "summary": msg, "case": {"engine": "grid-file", "case": case}})
+
+    path = os.path.join(scratch(), f"c17_{_uuid.uuid4().hex}.geoh5")
+    try:
+        try:
+            ws = Workspace.create(path)
+            uid = _make_grid_object(ws, case).uid
+            ws.close()
+        except Exception as exc:  # pylint: disable=broad-except
+            bad(f"{kind}-create-raises:{type(exc).__name__}", f"creation in a file refused: {type(exc).__name__}: {exc}")
+            return viol
+        with Workspace(path, mode="r") as ws2:
+            found = ws2.get_entity(uid)
+            if not found or found[0] is None:
+                bad(f"{kind}-reloaded-missing", "object not found after reopening the file")
+                return viol
+            obj = found[0]
+            got = read_centroids(obj)
+            try:
+                n_cells = obj.n_cells
+            except Exception as exc:  # pylint: disable=broad-except
+                n_cells = f"raises {type(exc).__name__}"
+            judge_centroids(f"{kind}-reloaded", got, n_cells, case["out"]["n"], pts(case["out"]["cent"]), None, None, None, bad)
+    finally:
+        if os.path.exists(path):
+            os.remove(path)
+    return viol
+
+
 # ---------------------------------------------------------------------------------------------- engine 2: OctreeRefine
 def _replay_refine(case):
     from geoh5py import Workspace
@@ -340,6 +380,9 @@ def _create_cached(ws, kind, st):
     from geoh5py.objects import BlockModel, DrapeModel, Grid2D, Octree
     val = st["val"]
     kw = {k: _api_value(k, v) for k, v in val.items() if k not in ("origin", "vertical")}
+    if val.get("vertical"):                 # only when a walk is shrunk: initial states are never vertical
+        kw.pop("dip")
+        kw["vertical"] = True
     if kind != "Drape" and st["has_origin"]:
         kw["origin"] = _api_value("origin", val["origin"])
     cls = {"Grid2D": Grid2D, "Block": BlockModel, "Octree": Octree, "Drape": DrapeModel}[kind]
@@ -386,7 +429,18 @@ def _state_mismatch(obj, st):
     return out
 
 
-def _replay_walk(item):
+def _shrink_walk(item, upto, sig):
+    """Shortest suffix of the walk that still shows `sig` on a fresh object created in the state the suffix starts from."""
+    steps = item["steps"][:upto + 1]
+    for start in range(upto, 0, -1):
+        cand = {"kind": item["kind"], "init": steps[start - 1][1], "steps": steps[start:]}
+        found = [v for v in _replay_walk(cand, shrink=False) if v["signature"] == sig]
+        if found:
+            return found[0]
+    return None
+
+
+def _replay_walk(item, shrink=True):
     """item = {"kind", "init": state json, "steps": [[label json, target state json], ...]}"""
     from geoh5py import Workspace
     kind = item["kind"]
@@ -394,7 +448,11 @@ def _replay_walk(item):
     done = []
 
     def bad(sig, msg):
-        viol.append({"signature": sig, "summary": f"after {done}: {msg}", "case": {"engine": "cache", "item": item}})
+        small = None
+        if shrink and sig not in (SIG_NO_ORIGIN, SIG_DRAPE_STALE) and len(done) > 2:
+            small = _shrink_walk(item, len(done) - 1, sig)      # done[i] is step i
+        viol.append(small or {"signature": sig, "summary": f"after {done}: {msg}",
+                              "case": {"engine": "cache", "item": item}})
 
     with Workspace() as ws:
         try:
@@ -438,8 +496,65 @@ def _replay_walk(item):
     return viol
 
 
+def _long_cover(edges, init, max_len):
+    """Cover every edge with few long walks from the initial states (graph.path_cover covers the same edges with many
+    short paths, which costs ten replayed steps per transition on these dense graphs): start at the state nearest to
+    the initial states that still has an uncovered out-edge, keep following uncovered edges, and when stuck step to
+    a neighbour that has some.  Returns (paths of edge indices, number of unreachable edges)."""
+    from collections import deque
+    out = {}
+    for idx, (src, _dst, _lab) in enumerate(edges):
+        out.setdefault(src, []).append(idx)
+    dist, pred = {}, {}
+    queue = deque()
+    for s0 in init:
+        dist[s0] = 0
+        queue.append(s0)
+    while queue:
+        u = queue.popleft()
+        for idx in out.get(u, []):
+            v = edges[idx][1]
+            if v not in dist:
+                dist[v] = dist[u] + 1
+                pred[v] = idx
+                queue.append(v)
+    unreachable = sum(1 for src, _d, _l in edges if src not in dist)
+    unc = {s0: list(reversed(idxs)) for s0, idxs in out.items() if s0 in dist}
+    order = sorted(unc, key=lambda s0: dist[s0])        # stable: ties keep the export order
+    ptr = 0
+    paths = []
+    while True:
+        while ptr < len(order) and not unc[order[ptr]]:
+            ptr += 1
+        if ptr == len(order):
+            break
+        cur = order[ptr]
+        prefix = []
+        node = cur
+        while dist[node] > 0:
+            prefix.append(pred[node])
+            node = edges[pred[node]][0]
+        path = prefix[::-1]
+        while len(path) < max_len or not path:
+            if unc.get(cur):
+                idx = unc[cur].pop()
+            else:
+                idx = next((e for e in out.get(cur, []) if unc.get(edges[e][1])), None)
+                if idx is None:      # two steps away
+                    two = next(((e, f) for e in out.get(cur, []) for f in out.get(edges[e][1], [])
+                                if unc.get(edges[f][1])), None)
+                    if two is None:
+                        break
+                    path.append(two[0])
+                    idx = two[1]
+            path.append(idx)
+            cur = edges[idx][1]
+        paths.append(path)
+    return paths, unreachable
+
+
 def _walks_from_graph(kind, res, tier, seed):
-    """Action sequences over the exported graph: (1) a path cover of every transition, each path closed by a read;
+    """Action sequences over the exported graph: (1) walks covering every transition, each walk closed by a read;
     (2) the same paths with a read after every setter (every setter is then taken from a state that holds cached
     centres and is followed by a read); (3) thorough: seeded random walks."""
     g = tlc.build_graph(res.lines)
@@ -450,9 +565,9 @@ def _walks_from_graph(kind, res, tier, seed):
     for idx, (src, _dst, lab) in enumerate(g.edges):
         succ[(src, lab["act"], json.dumps(lab["arg"]))] = idx
     rng = random.Random(seed)
-    paths, covered, unreachable = graph.path_cover(g.states, g.edges, init, max_len=30)
-    if unreachable or covered != len(g.edges):
-        raise MachineryError(f"CentroidCache {kind}: {len(unreachable)} transitions not reachable from the initial states")
+    paths, unreachable = _long_cover(g.edges, init, max_len=40)
+    if unreachable:
+        raise MachineryError(f"CentroidCache {kind}: {unreachable} transitions not reachable from the initial states")
 
     def follow(start, labels, read_after_setter):
         cur = start
@@ -596,6 +711,13 @@ def run(tier, seed):
             cases, chosen = function_engine("GridIndex", ("grid", cfg), _replay_grid, limit)
             seen_kinds |= {c["inp"]["kind"] for c in chosen}
             no_origin += sum(1 for c in chosen if not c["inp"]["hasO"])
+            # a seeded sub-sample once more through a file (create, close, reopen, read)
+            sub, _ = funcheck.sample(chosen, FILE_SAMPLE[tier], seed + 1)
+            v, wall = funcheck.replay_all(_replay_grid_file, sub)
+            viol += v
+            replayed += len(sub)
+            per[cfg].update({"replayed_through_file": len(sub), "file_replay_wall_s": round(wall, 1),
+                             "file_violations": len(v)})
             mid = chosen[len(chosen) // 2]
             samples.append({"engine": "GridIndex", "cfg": cfg, "inp": mid["inp"], "n": mid["out"]["n"],
                             "first_centre": mid["out"]["cent"][0]})
@@ -653,7 +775,8 @@ def run(tier, seed):
             "bounds: cfg files in spec/derived (block/grid <= 3 cells per axis, integer delimiters starting at 0, increasing "
             "or decreasing; rational cell sizes from SizeTab; 12 angles with rational sine and cosine; octree base "
             "dimensions 1..4 (quick) / 1..16 (thorough); curves of <= 5 (7) vertices with <= 3 labels)",
-            "in-memory workspaces (Workspace()); centroids of objects re-read from a file are not exercised here",
+            "in-memory workspaces (Workspace()); a seeded sub-sample of the GridIndex cases is replayed once more through "
+            "a file (create, close, reopen, read) - other engines are not",
             "angles are handed to the API in degrees (atan2 of the rational sine/cosine); comparison tolerance 1e-9",
             "the dip setter is not exercised while Vertical is on (the effective dip then depends on getter side effects)",
             "drape models are read only when layers and prisms describe the same layout",
@@ -666,6 +789,8 @@ def replay(doc):
     eng = case["engine"]
     if eng == "grid":
         v = _replay_grid(case["case"])
+    elif eng == "grid-file":
+        v = _replay_grid_file(case["case"])
     elif eng == "refine":
         v = _replay_refine(case["case"])
     elif eng == "curve":
